@@ -53,7 +53,37 @@ def tags_of(files, op):
                         tags.add("self-referential-assignment")
                 if len(assigns) > 1:
                     tags.add("assigned-more-than-once")
+                # the value is pasted without parentheses: an operator expression that becomes an operand
+                loose = (ast.BinOp, ast.BoolOp, ast.Compare, ast.UnaryOp, ast.IfExp, ast.Lambda, ast.NamedExpr, ast.Await, ast.Yield, ast.YieldFrom, ast.Starred)
+                if any(isinstance(a.value, loose) or (isinstance(a.value, ast.Tuple) and src_has_bare_tuple(files, a)) for a in assigns):
+                    for parent in ast.walk(fn):
+                        kids = []
+                        if isinstance(parent, ast.BinOp):
+                            kids = [parent.left, parent.right]
+                        elif isinstance(parent, ast.UnaryOp):
+                            kids = [parent.operand]
+                        elif isinstance(parent, ast.BoolOp):
+                            kids = parent.values
+                        elif isinstance(parent, ast.Compare):
+                            kids = [parent.left] + parent.comparators
+                        elif isinstance(parent, (ast.Attribute, ast.Subscript, ast.Starred, ast.Await)):
+                            kids = [parent.value]
+                        elif isinstance(parent, ast.Call):
+                            kids = [parent.func]
+                        elif isinstance(parent, ast.IfExp):
+                            kids = [parent.test, parent.body, parent.orelse]
+                        if any(isinstance(k, ast.Name) and k.id == target and isinstance(k.ctx, ast.Load) for k in kids):
+                            tags.add("inlined-operator-expression-becomes-an-operand")
     return sorted(tags)
+
+
+def src_has_bare_tuple(files, assign):
+    """is the assigned tuple written without parentheses?"""
+    for t in files.values():
+        seg = ast.get_source_segment(t, assign.value)
+        if seg is not None and not seg.startswith("("):
+            return True
+    return False
 
 
 def replay(f):
